@@ -224,10 +224,9 @@ const (
 	c02StBadHuff   = "bad-huffman"
 	c02StOversized = "oversized-table-update"
 	c02StTruncated = "truncated"
-	// Sub-domains where RFC 7541 does not fix the decoder's verdict, or whose
-	// verdict another check owns; the reference stops there.
+	// Sub-domain where RFC 7541 does not fix the decoder's verdict; the
+	// reference stops there.
 	c02StExclMidUpdate = "excluded:size-update-after-a-field"
-	c02StExclTwoUpdate = "excluded:second-size-update-at-block-start"
 )
 
 func c02StIsError(st string) bool {
@@ -235,7 +234,7 @@ func c02StIsError(st string) bool {
 }
 
 func c02StExcluded(st string) bool {
-	return st == c02StExclMidUpdate || st == c02StExclTwoUpdate
+	return st == c02StExclMidUpdate
 }
 
 // c02RefDec is the reference decoding context: the dynamic table (newest entry
@@ -428,7 +427,7 @@ func (r *c02RefDec) Block(b []byte) c02RefBlock {
 			res.MaxStr = uint64(len(f.Value))
 		}
 	}
-	sawField, sawUpdate := false, false
+	sawField := false
 	for br.left() > 0 {
 		// the representation is identified by its leading bits (§6)
 		if b1, _ := br.bits(1); b1 == 1 {
@@ -453,12 +452,10 @@ func (r *c02RefDec) Block(b []byte) c02RefBlock {
 		if b2, _ := br.bits(1); b2 == 1 {
 			incremental, prefix = true, 6 // §6.2.1  01
 		} else if b3, _ := br.bits(1); b3 == 1 {
-			// §6.3 dynamic table size update  001
+			// §6.3 dynamic table size update  001; §4.2 allows several of them
+			// at the beginning of a block
 			if sawField {
 				return fail(c02StExclMidUpdate, "")
-			}
-			if sawUpdate {
-				return fail(c02StExclTwoUpdate, "")
 			}
 			v, long, ok := br.integer(5)
 			res.LongInt = res.LongInt || long
@@ -475,7 +472,6 @@ func (r *c02RefDec) Block(b []byte) c02RefBlock {
 				res.Evicted = true
 			}
 			res.Reprs++
-			sawUpdate = true
 			continue
 		} else if b4, _ := br.bits(1); b4 == 1 {
 			never, prefix = true, 4 // §6.2.3  0001
